@@ -106,10 +106,15 @@ def generate(ctx):
                 c["input"]["cross_layout"] = "results differ between layouts of the same content"
         cases.extend(group)
     # the one layout class the library cannot produce itself: known finding, exercised so that it stays visible
-    for j in range(ctx.budget(4, 20)):
-        inp = ao.mk_input(rng, max_rows=6, recipe="missing_hidden")
+    for j in range(ctx.budget(12, 40)):
+        schema_h, rows_h = gen.gen_content(rng, max_rows=6)
+        if rows_h and not any(r is None for r in rows_h):
+            rows_h[rng.randrange(len(rows_h))] = None          # at least one missing row (which will hide elements)
+        inp = ao.mk_input(rng, content=(schema_h, rows_h), recipe=["missing_hidden", "missing_hidden_null"][j % 2])
         if inp["built"][0] == "ok":
             cases.append(views_case(inp))
+            if j % 3 == 0:
+                cases.append(ao.run_op(ao.op_iterate, rng, inp))
     for i, c in enumerate(cases):
         c["cid"] = i
     return cases
